@@ -4,6 +4,7 @@ import (
 	"bytes"
 	"errors"
 	"fmt"
+	"math"
 	"strconv"
 	"strings"
 
@@ -40,7 +41,8 @@ func getScoreRange(left []byte, right []byte) (float64, float64, error) {
 			return leftRange, rightRange, errInvalidRange
 		}
 		if isLOpen {
-			leftRange++
+			// scores are float, the exclusive bound is the next float but not the next integer
+			leftRange = math.Nextafter(leftRange, math.MaxFloat64)
 		}
 	}
 	rangeD = right
@@ -60,7 +62,7 @@ func getScoreRange(left []byte, right []byte) (float64, float64, error) {
 			return leftRange, rightRange, errInvalidRange
 		}
 		if isROpen {
-			rightRange--
+			rightRange = math.Nextafter(rightRange, -math.MaxFloat64)
 		}
 
 	}
